@@ -109,7 +109,9 @@ Step ==
                            ELSE IF agg.n = 0 THEN Keep(<<FirstBad(<< <<"total", IsInt(e.m.total, 0)>>, <<"win_rate", IsInt(e.m.win_rate, 0)>>,
                                                              <<"net_profit_percentage", IsInt(e.m.net_profit_percentage, 0)>> >>)>>)
                            ELSE Keep(<<FirstBad(TradeChecks(e.m, agg, h.U, h.start))>>)
-                                \o (IF nb >= 2 THEN EquityFails(e.m, h.short) ELSE <<>>))
+                                \o (IF nb >= 2 THEN EquityFails(e.m, h.short) ELSE <<>>)
+                                \* the caller's daily-balance list is an input: the call must leave it as it was
+                                \o (IF e.argsame THEN <<>> ELSE <<"daily-balance-argument-modified">>))
             /\ skipped' = (IF agg.n = 0 THEN 0 ELSE SkippedTrade(agg, h.U, h.start))
             /\ UNCHANGED <<agg, nb, bals, d1, d2>>
   /\ l' = l + 1 /\ UNCHANGED tid
